@@ -422,6 +422,23 @@ def part_units(ctx, cfg):
     st2.apply_update({'a': shared, 'b': shared})
     v2 = st2.get_value()
     ok = ok and v2['a'].units == declared and v2['b'].units == other
+    # a leaf holding a LIST of quantities (units taken from the first default
+    # element): an update list given in another compatible unit is
+    # concatenated and every element ends in the declared units
+    st3 = Store({'ql': {'_default': [2 * declared]}})
+    st3.apply_defaults()
+    more = [mag * uu, 1 * uu]
+    st3.apply_update({'ql': more})
+    ql = st3.get_value()['ql']
+    want = [2 * declared, (mag * uu).to(declared), (1 * uu).to(declared)]
+    ok_list = isinstance(ql, list) and len(ql) == 3 and all(
+        hasattr(a, 'units') and a.units == declared and
+        abs(a.magnitude - b.magnitude) <= 1e-9 * max(1, abs(b.magnitude))
+        for a, b in zip(ql, want))
+    ok_list = ok_list and [str(x.units) for x in more] == [str(uu), str(uu)]
+    ctx.claim('C08.units', ok_list, sig='units-list-of-quantities',
+              info=lambda: dict(declared=str(declared), update=str(more),
+                                got=str(ql)))
     ctx.claim('C08.units', ok, sig='units',
               info=lambda: dict(declared=str(declared), update=str(mag * uu),
                                 got=str(val)))
